@@ -27,6 +27,11 @@ class PackageSpace:
         if root not in sys.path:
             sys.path.insert(0, root)
         self.names = []
+        # every n-th package gets a second, earlier __path__ entry that
+        # holds an unreadable (not UTF-8) copy of its files or nothing: the
+        # component must still be found in the package's real directory
+        self.split_every = 0
+        self._written = 0
 
     def new_name(self, hint="p"):
         _serial[0] += 1
@@ -46,8 +51,22 @@ class PackageSpace:
         os.makedirs(d, exist_ok=True)
         init = os.path.join(d, "__init__.py")
         if not os.path.exists(init):
+            self._written += 1
+            split = bool(self.split_every and files and "." not in name and
+                         self._written % self.split_every == 0)
             with open(init, "w") as f:
-                f.write("")
+                if split:
+                    alt = os.path.join(self.root, "_alt_" + name)
+                    os.makedirs(alt, exist_ok=True)
+                    if self._written % (2 * self.split_every) == 0:
+                        for fn in files:
+                            with open(os.path.join(alt, fn), "wb") as g:
+                                g.write(b"<component>\xe9\xff</component>")
+                    f.write("__path__.insert(0, %r)\n" % alt)
+                    self.split_packages = getattr(self, "split_packages",
+                                                  0) + 1
+                else:
+                    f.write("")
         for fn, text in files.items():
             with open(os.path.join(d, fn), "w") as f:
                 f.write(text)
